@@ -159,9 +159,12 @@ def check(run):
     nfull = 0
     for b, blk in ws.cfg.blocks.items():
         atom, neg = ws.cfg.branch_atom(b)
-        if atom is None or len(blk['succ']) != 2 or p06.window_cmp(ws, atom, csub) != '>':
+        wop = p06.window_cmp(ws, atom, csub) if atom is not None and len(blk['succ']) == 2 else None
+        if wop not in ('>', '<='):
             continue
-        full_edge = blk['succ'][1] if neg else blk['succ'][0]
+        # the window is full when `D > 0` holds, i.e. when a `D <= 0` test (e.g. a has-room helper) fails
+        full_on_true = (wop == '>') != bool(neg)
+        full_edge = blk['succ'][0] if full_on_true else blk['succ'][1]
         if full_edge is None:
             continue
         # only the test that follows a send (inside the segmentation loop) matters
